@@ -38,7 +38,7 @@ Definition run_cli (i : invocation) : outcome :=
   if negb (in_regular i) then Usage InputNotRegular
   else if negb (out_ok i) then Usage OutputUnusable
   else if out_is_in i then Usage OutputIsInput
-  else if parser_test i then ParserTest
+  else if parser_test i then (if in_decodable i then ParserTest else Usage InputNotDecodable)
   else if negb (has_cmd i) then Usage NoCommand
   else if negb (cmd_regular i) then Usage CommandNotRegular
   else if negb (cmd_exec i) then Usage CommandNotExecutable
